@@ -56,10 +56,10 @@ for _l, _cls in (("rust", "2-byte expando U+00B5; the shared pre_process_pattern
     H(prop="C20", name=f"c20_lang_pipeline_{_l}", crate="lang-h", module="c20_lang_spelling", features=[], timeout=1800, mem_gb=20,
       decides=f"for L = {_l} ({_cls}): " + _DEC_LANG, functions=LANG_FUNCS, assumes=[LANG_ASSUME], shape="STR",
       bounds="spelling: symbolic index into a table of 24 spellings, case-split ($A $$A $_ $$_ $$$ $$$A | $$$_ $_X $$_X $$$_X $Z $A_1 | $a $1 $ $$ $$$$ $$$$A | $ZA $$Z0 $Aa $$$a $A$B A). " + _NOTE_LANG + "; unwind 25")
-for _i, _rng in enumerate(("Bash C Cpp CSharp Css Elixir", "Go Haskell Html Java JavaScript Json", "Kotlin Lua Php Python Ruby Rust", "Scala Swift Tsx TypeScript Yaml")):
-    H(prop="C20", name=f"c20_lang_named_spellings_l{_i}", crate="lang-h", module="c20_lang_spelling", features=[], timeout=3000, mem_gb=20, tier="thorough",
-      decides="for every built-in language L of the range: " + _DEC_LANG, functions=LANG_FUNCS, assumes=[LANG_ASSUME], shape="STR",
-      bounds=f"language: symbolic index into SupportLang::all_langs() restricted to positions {6 * _i}..{min(6 * _i + 6, 23)} ({_rng} at this commit), case-split per language; spellings: $A $$A $_ $$_ $$$ $$$A. " + _NOTE_LANG + "; unwind 25")
+for _l in ("Bash", "Cpp", "CSharp", "Elixir", "Go", "Haskell", "JavaScript", "Json", "Kotlin", "Lua", "Php", "Python", "Ruby", "Scala", "Swift", "Tsx", "TypeScript", "Yaml"):
+    H(prop="C20", name=f"c20_lang_named_{_l.lower()}", crate="lang-h", module="c20_lang_spelling", features=[], timeout=2400, mem_gb=20, tier="thorough",
+      decides=f"for L = {_l}: " + _DEC_LANG, functions=LANG_FUNCS, assumes=[LANG_ASSUME], shape="STR",
+      bounds="spelling: symbolic index into the six spellings the property names ($A $$A $_ $$_ $$$ $$$A), case-split. " + _NOTE_LANG + "; unwind 25")
 for _nm, _b in (("c20_lang_spelling_rust_len3", "Rust, every spelling of exactly 3 bytes starting with $ over {$,A,Z,a,0,_}"),
                 ("c20_lang_shape_rust_2_2", "Rust, $$ followed by two symbolic name characters over {A,Z,a,0,_}")):
     H(prop="C20", name=_nm, crate="lang-h", module="c20_lang_spelling", features=[], tier="lab", timeout=1800, mem_gb=24,
@@ -132,6 +132,10 @@ H(prop="C19", name="c19_node_positions_after_edit", crate="core-h", module="c16_
   decides="after AstGrep::edit inserted a multi-byte character into an ASCII document, end_pos() line / character column are those of the new text",
   functions=["ast_grep_core::node::Root::do_edit", "ast_grep_core::node::Node::end_pos", "ast_grep_core::Position::column"],
   assumes=[ST_TS, ST_UTF8], shape="STR", bounds="3-byte text over {a, \\n} (middle byte symbolic), U+00E9 inserted at every position; one-node tree before and after; unwind 10")
+H(prop="C16", name="c16_display_context_multibyte7", crate="core-h", module="c16_positions", mem_gb=24, timeout=1800,
+  decides="Node::display_context(before, after): leading / matched / trailing are the bytes of the whole-line window around the node, start_line its first line -- on text with multi-byte characters before the match (byte offsets != character columns)",
+  functions=["ast_grep_core::node::Node::display_context"], assumes=[ST_TS, ST_UTF8],
+  shape="STR", bounds="the 7-byte text x0 U+00E9 x1 U+00E9 x2 with x_i in {a, \\n} (symbolic), every node range on character boundaries, before / after <= 1; unwind 10")
 H(prop="C16", name="c16_display_context_len3", crate="core-h", module="c16_positions", mem_gb=24, timeout=1800,
   decides="Node::display_context(before, after): leading / matched / trailing / start_line == whole-line window around the node, clipped at the file edges",
   functions=["ast_grep_core::node::Node::display_context"], assumes=[ST_TS],
@@ -524,6 +528,12 @@ for k, tier in ((2, "quick"), (3, "thorough")):
 H(prop="C07", name="c07_indent_at_offset_n8", crate="core-h", module="c07_indent",
   decides="get_indent_at_offset(prefix) == leading spaces of the last line of prefix",
   functions=["ast_grep_core::replacer::indent::get_indent_at_offset"], shape="STR", bounds="all prefixes <= 8 bytes over {' ',x,\\n} (below the 512-byte look-ahead window); unwind 10")
+for _f, _t in ((0, 1), (0, 2), (1, 0), (1, 2), (2, 1)):
+    H(prop="C07", name=f"c07_indent_shift2_{_f}_to_{_t}", crate="core-h", module="c07_indent", timeout=1800, mem_gb=20, tier="lab",
+      decides="indent_lines(to, extract_with_deindent(text, range)) == the block with every continuation line shifted from the column it was extracted at to the new column (first line untouched)",
+      functions=["ast_grep_core::replacer::indent::extract_with_deindent", "ast_grep_core::replacer::indent::indent_lines",
+                 "ast_grep_core::replacer::indent::indent_lines_impl", "ast_grep_core::replacer::indent::remove_indent", "ast_grep_core::replacer::indent::get_indent_at_offset"],
+      shape="STR", bounds=f"two lines of one symbolic character each, extracted at column {_f}, re-inserted at column {_t}; unwind 10")
 for nm, desc, tier in (("c07_indent_shift_2_to_0", "from column 2 to 0", "thorough"), ("c07_indent_identity_1", "column 1 to 1 (self-rewrite)", "quick"),
                        ("c07_indent_shift_0_to_2", "from column 0 to 2", "thorough"), ("c07_indent_shift_2_to_1", "from column 2 to 1", "thorough")):
     H(prop="C07", name=nm, crate="core-h", module="c07_indent", timeout=1800, tier=tier,
